@@ -30,6 +30,8 @@ MUST_REACH = ["lena/core/sequence.py:Sequence.run", "lena/core/source.py:Source.
               "lena/core/meta.py:flatten"]
 MIN_NONTRIVIAL = {"quick": 500, "thorough": 20000}
 NPROG = {"quick": 2500, "thorough": 120000}
+# programs beyond the small sizes: 7..24 elements, flows of 17..400 values, nesting up to 7
+NBIG = {"quick": 120, "thorough": 6000}
 
 LEVEL_TEXT = ("Seeded random exploration of element programs and flows; every arrangement of "
               "each program is executed on the real Sequence/Source/Run code and compared "
@@ -45,7 +47,7 @@ CALLS = ["inc", "dbl", "neg", "sq", "mod3", "add10", "half", "ctx:a", "ctx:b"]
 PREDN = ["even", "odd", "pos", "lt5", "mod3"]
 
 
-def rand_el(rng, depth=0):
+def rand_el(rng, depth=0, big=False):
     k = rng.choice(["call", "call", "var", "filter", "slice", "count", "runif", "reverse",
                     "acc", "acc", "seq", "split", "end", "seqsub"] if depth < 2 else
                    ["call", "var", "filter", "slice", "count"])
@@ -57,6 +59,10 @@ def rand_el(rng, depth=0):
         return ["filter", rng.choice(PREDN)]
     if k == "slice":
         def idx():
+            if big and rng.random() < 0.7:
+                return rng.choice([7, 15, 16, 17, 31, 32, 33, 63, 64, 65, 100, 127, 128, 129,
+                                   255, 256, 257, -7, -16, -17, -32, -33, -64, -65, -100,
+                                   -128, -129, rng.randint(-300, 300)])
             return rng.choice([None, 0, 1, 2, 3, 5, -1, -2, -3])
         form = rng.randint(1, 3)
         if form == 1:
@@ -91,6 +97,14 @@ def rand_el(rng, depth=0):
     raise AssertionError(k)
 
 
+def rand_el_kind(rng, kind, big=False):
+    """A random element of the given kind (rejection sampling over rand_el)."""
+    while True:
+        e = rand_el(rng, 1, big=big)
+        if e[0] == kind:
+            return e
+
+
 def cases(tier, seed):
     n = NPROG[tier]
     for i in range(n):
@@ -99,6 +113,50 @@ def cases(tier, seed):
         els = [rand_el(rng) for _ in range(ne)]
         yield {"k": "prog", "els": els, "flow": gen.rand_flow(rng, 8),
                "nest_seed": rng.randint(0, 10 ** 9)}
+    for i in range(NBIG[tier]):
+        rng = gen.rng_for(seed, "C01big", i)
+        shape = i % 3
+        # shape 0: many elements; 1: a long flow; 2: both, moderately
+        ne = (rng.randint(9, 24), rng.randint(1, 5), rng.randint(7, 12))[shape]
+        nflow = (rng.randint(5, 20), rng.choice([17, 33, 64, 65, 100, 129, 257, 400,
+                                                  rng.randint(17, 400)]),
+                 rng.randint(17, 80))[shape]
+        pool = ["call", "call", "call", "var", "filter", "slice", "count", "runif", "seq",
+                "split", "acc"]
+        els = []
+        for _ in range(ne):
+            kind = rng.choice(pool)
+            if kind == "filter":
+                # keep most of a long flow alive through many elements
+                els.append(["filter", rng.choice(["pos", "lt5"])] if rng.random() < 0.3
+                           else ["call", rng.choice(["inc", "add10", "ctx:a"])])
+            elif kind == "acc":
+                els.append(rng.choice([["sum"], ["store", 1], ["fccount", "fc"]])
+                           if rng.random() < 0.3 else ["call", "inc"])
+            elif kind == "call":
+                els.append(["call", rng.choice(["inc", "add10", "neg", "ctx:a", "ctx:b", "mod3"])])
+            elif kind == "slice":
+                els.append(rand_el_kind(rng, "slice", big=True))
+            elif kind == "seq":
+                # a chain of nested sequences 4..7 deep around a few elements
+                inner = [rand_el(rng, 2) for _ in range(rng.randint(1, 3))]
+                for _d in range(rng.randint(4, 7)):
+                    inner = [["seq", inner]] + ([["call", "inc"]] if rng.random() < 0.3 else [])
+                els.extend(inner)
+            elif kind == "split":
+                nb = rng.randint(5, 12)
+                els.append(["split", [[rand_el(rng, 2) for _ in range(rng.randint(1, 2))]
+                                      for _ in range(nb)],
+                            rng.choice([1, 3, 16, 17, 64, 1000])])
+            else:
+                els.append(rand_el(rng, 1, big=True))
+        fl = []
+        withctx = rng.random() < 0.4
+        for j in range(nflow):
+            x = rng.randint(-3, 9)
+            fl.append([x, {"i": j}] if withctx else x)
+        yield {"k": "prog", "els": els, "flow": fl, "nest_seed": rng.randint(0, 10 ** 9),
+               "big": 1}
     # ill-typed arguments at every position (finite table, enumerated)
     bads = ["int", "str", "none", "onlyfill", "run_noncallable", "onlycompute", "dict",
             "fillrequest_only", "str_percent", "str_format", "list_percent", "dict_percent",
@@ -194,7 +252,7 @@ def random_nest(rng, items, depth=0):
         while i < len(items):
             j = rng.randint(i + 1, len(items))
             chunk = items[i:j]
-            if depth < 3 and rng.random() < 0.6:
+            if depth < (7 if len(items) > 6 else 3) and rng.random() < 0.6:
                 out.append(lena.core.Sequence(*random_nest(rng, chunk, depth + 1)))
             else:
                 out.extend(chunk)
